@@ -129,4 +129,11 @@ def build(tier, seed):
     ow = [o for o in ow if o.id == 'C05.scenario.warehouse']
     for o in ow:
         o.id = 'C01.warehouse'
-    return [u] + u11 + uw, obs + o11 + ow, meta
+    # the insert contract assumed at every table is established on the real tree code by C08: its rotation contracts, fix-up loop
+    # VCs and height lemma are run here too (a change to the tree code that loses nodes breaks unification of every type table)
+    import C08
+    u8, o8, m8 = C08.build(tier, seed)
+    o8 = [o for o in o8 if o.kind != 'K5' and not getattr(o, 'stand_in', None)]
+    for o in o8:
+        o.id = 'C01.tables.' + o.id.split('.', 1)[1]
+    return [u] + u11 + uw + u8, obs + o11 + ow + o8, meta
